@@ -510,20 +510,21 @@ class Body:
 
     # ---------------- slices
     def slice(self, start_locals, int_barrier=True, stop_at_calls=None, stop_locals=(), start_fields=None):
-        """Backward may-derive slice (flow-insensitive; field-sensitive for direct field assignments).
+        """Backward may-derive slice (flow-insensitive; field-sensitive for direct field assignments; variant-sensitive
+        through `?`: a read of `(x as Continue).0` of Try::branch(r) only follows r's Ok/Some constructions).
         Returns a Slice."""
         defs = self.defs()
         sl = Slice(self)
-        work = [(l, None) for l in start_locals]
+        work = [(l, None, None) for l in start_locals]
         if start_fields:
-            work = [(l, tuple(start_fields)) for l in start_locals]
+            work = [(l, tuple(start_fields), None) for l in start_locals]
         seen = set()
         stop_locals = set(stop_locals)
         while work:
-            l, rf = work.pop()
-            if (l, rf) in seen or (l, None) in seen:
+            l, rf, vf = work.pop()
+            if (l, rf, vf) in seen or (l, None, None) in seen:
                 continue
-            seen.add((l, rf))
+            seen.add((l, rf, vf))
             sl.locals.add(l)
             if l in stop_locals:
                 continue
@@ -542,18 +543,32 @@ class Body:
                             if n and df[:n] != rf[:n]:
                                 continue
                     rv = d["stmt"]["rv"]
+                    # variant-sensitivity
+                    if vf is not None and rv["k"] == "aggregate" and rv.get("adt") in ("std::result::Result", "std::option::Option") and not d.get("partial"):
+                        if rv.get("variant") not in vf:
+                            continue
                     sl.assigns.append(d)
                     ops, places = rv_operands(rv)
                     if rv["k"] == "aggregate":
                         sl.aggs.append(d)
+                        # reading field f of a value built by an aggregate follows only that field's operand
+                        if rf and not d.get("partial"):
+                            pick = None
+                            if rv.get("tuple") and rf[0].isdigit() and int(rf[0]) < len(ops):
+                                pick = int(rf[0])
+                            elif rv.get("fields") and rf[0] in rv["fields"] and rv.get("adt") not in ("std::result::Result", "std::option::Option"):
+                                pick = rv["fields"].index(rf[0])
+                            if pick is not None:
+                                ops = [ops[pick]]
+                    keep_vf = vf if rv["k"] == "use" else None
                     for o in ops:
                         p = op_place(o)
                         if p is not None:
-                            self._visit_place(p, sl, work)
+                            self._visit_place(p, sl, work, keep_vf)
                         elif "const" in o:
                             sl.consts.append(o["const"])
                     for p in places:
-                        self._visit_place(p, sl, work)
+                        self._visit_place(p, sl, work, None)
                 elif d["kind"] in ("call", "mutcall"):
                     t = d["term"]
                     key = d["block"]
@@ -563,30 +578,42 @@ class Body:
                     sl.calls.append((d["block"], t))
                     if stop_at_calls and stop_at_calls(t):
                         continue
+                    arg_vf = None
+                    if vf is not None and d["kind"] == "call" and re.search(r"ops::Try::branch$", t.get("callee", "")):
+                        m = set()
+                        if "Continue" in vf:
+                            m |= {"Ok", "Some"}
+                        if "Break" in vf:
+                            m |= {"Err", "None"}
+                        arg_vf = frozenset(m) if m else None
                     for a in t["args"]:
                         p = op_place(a)
                         if p is not None:
-                            self._visit_place(p, sl, work)
+                            self._visit_place(p, sl, work, arg_vf)
                         elif "const" in a:
                             sl.consts.append(a["const"])
                     if "func" in t:
                         p = op_place(t["func"])
                         if p is not None:
-                            self._visit_place(p, sl, work)
+                            self._visit_place(p, sl, work, None)
                 elif d["kind"] == "yield":
                     sl.yields.append(d["block"])
                     p = op_place(d["term"]["value"])
                     if p is not None:
-                        self._visit_place(p, sl, work)
+                        self._visit_place(p, sl, work, None)
         return sl
 
-    def _visit_place(self, p, sl, work):
+    def _visit_place(self, p, sl, work, vf=None):
         fs = place_fields(p)
         if fs:
             sl.fieldreads.add((p["local"], tuple(fs)))
         # field path is only meaningful on the local itself (not behind a deref)
         direct = tuple(fs) if fs and not place_has_deref(p) else None
-        work.append((p["local"], direct))
+        dc = [e["downcast"] for e in p["proj"] if isinstance(e, dict) and "downcast" in e]
+        if dc and not place_has_deref(p):
+            vf = frozenset([dc[0]])
+            direct = None
+        work.append((p["local"], direct, vf))
         for il in place_index_locals(p):
             sl.index_locals.add(il)
 
@@ -623,10 +650,12 @@ class Body:
     def all_calls(self):
         return self.calls()
 
-    def aggregates(self, adt=None, variant=None):
+    def aggregates(self, adt=None, variant=None, include_syn=False):
         out = []
         for bi in sorted(self._reach):
             for i, s in enumerate(self.blocks[bi]["stmts"]):
+                if s.get("syn") and not include_syn:
+                    continue
                 if s["k"] == "assign" and s["rv"]["k"] == "aggregate":
                     rv = s["rv"]
                     if adt is not None and not re.search(adt, rv.get("adt", "")):
@@ -804,6 +833,29 @@ class Body:
             for v, bb in st["targets"]:
                 if v == 0:
                     return bb
+        # no `?`: the result is matched / consumed by a (desugared) combinator: the Ok (0) resp. Some (1) edge
+        ty = self.local_ty(dest)
+        want = 0 if ty.startswith("std::result::Result") else 1 if ty.startswith("std::option::Option") else None
+        if want is not None:
+            for a in sorted(self._reach):
+                c = self.cond_of_switch(a)
+                if c and c["kind"] == "discr":
+                    pl = c["place"]
+                    l = pl["local"]
+                    # the switched local is the call result or a plain copy of it
+                    for _ in range(4):
+                        if l == dest:
+                            break
+                        d = self.single_def(l)
+                        if d and d["kind"] == "assign" and d["stmt"]["rv"]["k"] == "use" and op_place(d["stmt"]["rv"]["op"]) and not op_place(d["stmt"]["rv"]["op"])["proj"]:
+                            l = op_place(d["stmt"]["rv"]["op"])["local"]
+                        else:
+                            break
+                    if l == dest and self.dominates(call_block, a):
+                        st = self.term(a)
+                        for v, bb in st["targets"]:
+                            if v == want:
+                                return bb
         return None
 
 
@@ -855,9 +907,13 @@ class Slice:
 # Facts
 # --------------------------------------------------------------------------------------------
 class Facts:
-    def __init__(self, path):
+    def __init__(self, path, normalise=True):
         self.path = path
         self.j = json.load(open(path))
+        if normalise:
+            import inline
+
+            self.j = inline.Normaliser(self.j).run()
         self.bodies = {}
         for b in self.j["bodies"]:
             self.bodies.setdefault(b["path"], []).append(b)
@@ -882,11 +938,13 @@ class Facts:
         self._cache[key] = b
         return b
 
-    def find_bodies(self, pat):
+    def find_bodies(self, pat, include_absorbed=False):
         out = []
         for p, lst in self.bodies.items():
             if re.search(pat, p):
                 for j in lst:
+                    if j.get("absorbed") and not include_absorbed:
+                        continue
                     key = (p, id(j))
                     if key not in self._cache:
                         self._cache[key] = Body(j, self)
@@ -907,7 +965,7 @@ class Facts:
         return self._cache[key]
 
     def closures_of(self, fn_path):
-        return [self.find_bodies("^" + re.escape(b["path"]) + "$")[0] for p, lst in self.bodies.items() for b in lst if b.get("parent") == fn_path and b["kind"] == "Closure"]
+        return [self.find_bodies("^" + re.escape(b["path"]) + "$")[0] for p, lst in self.bodies.items() for b in lst if b.get("parent") == fn_path and b["kind"] == "Closure" and not b.get("absorbed")]
 
     def callers_of(self, pat):
         """[(Body, block, term)] of every call in the crate whose callee or resolved path matches pat."""
